@@ -456,6 +456,44 @@ func raceStock(h *raceH, p *prng, rounds int, dir string, withEnc bool) {
 		wg.Wait()
 		gf.FlushAll(context.Background())
 		close(ch)
+		// two pipelines of one type: one formats and writes every event, the other one's JSONFormatterFilter
+		// rejects every event. What the second does with ITS rendering never takes anything from the first.
+		{
+			rb, _ := eventlogger.NewBroker()
+			rbuf := &safeBuf{}
+			rb.RegisterNode("json", &eventlogger.JSONFormatter{})
+			rb.RegisterNode("out", &writer.Sink{Writer: rbuf})
+			rb.RegisterNode("reject", &eventlogger.JSONFormatterFilter{Predicate: func(interface{}) (bool, error) { return false, nil }})
+			rb.RegisterNode("never", &eventlogger.FileSink{Path: "/dev/null"})
+			rb.RegisterPipeline(eventlogger.Pipeline{PipelineID: "audit", EventType: "t", NodeIDs: []eventlogger.NodeID{"json", "out"}})
+			rb.RegisterPipeline(eventlogger.Pipeline{PipelineID: "sample", EventType: "t", NodeIDs: []eventlogger.NodeID{"reject", "never"}})
+			var rwg sync.WaitGroup
+			var warned int32
+			var firstWarn atomic.Value
+			const perSender = 30
+			for g := 0; g < 3; g++ {
+				rwg.Add(1)
+				go func(g int) {
+					defer rwg.Done()
+					for i := 0; i < perSender; i++ {
+						st, _ := rb.Send(context.Background(), "t", map[string]interface{}{"g": g, "i": i})
+						if len(st.Warnings) > 0 {
+							atomic.AddInt32(&warned, 1)
+							firstWarn.Store(st.Warnings[0].Error())
+						}
+					}
+				}(g)
+			}
+			rwg.Wait()
+			rbuf.mu.Lock()
+			lines := strings.Count(rbuf.b.String(), "\n")
+			rbuf.mu.Unlock()
+			if lines != 3*perSender || warned > 0 {
+				fw, _ := firstWarn.Load().(string)
+				h.oracle("C19 two pipelines of one event type, [JSONFormatter, writer.Sink] and [JSONFormatterFilter rejecting every event, sink]: %d events sent, the first pipeline's sink wrote %d lines, %d Sends reported a warning (%.80s): one pipeline's formatting took the other pipeline's rendering away", 3*perSender, lines, warned, fw)
+			}
+			h.st.Ops += 3 * perSender
+		}
 		// a channel sink whose consumer has stalled, shared by overlapping senders: each of them gets its own
 		// bounded wait (an error after the timeout), none is left waiting for another one's timer
 		{
@@ -734,6 +772,73 @@ func raceEncRot(h *raceH, p *prng, rounds int) {
 		wg.Wait()
 		h.st.Cases++
 	}
+	// events that carry their own key material (event id, salt, info), several at once through one filter:
+	// every digest is under ITS event's key, salt and info -- exactly, not "one of those around"
+	for r := 0; r < rounds/4+1; r++ {
+		f := &encrypt.Filter{Wrapper: testWrapper(1), HmacSalt: []byte("salt-f"), HmacInfo: []byte("info-f")}
+		nW := 3 + p.intn(5)
+		type wk struct {
+			info *ewiPayload
+			want string
+		}
+		ws := make([]wk, nW)
+		for k := range ws {
+			if k == 0 {
+				ws[k].want = indepHmac(keyBytes(1), []byte("salt-f"), []byte("info-f"), []byte("value"))
+				continue
+			}
+			ws[k].info = &ewiPayload{id: fmt.Sprintf("ev%d-%d", r, k), salt: []byte(fmt.Sprintf("s%d", k)), info: []byte(fmt.Sprintf("i%d", k))}
+			dw, err := encrypt.NewEventWrapper(ctx, testWrapper(1), ws[k].info.id)
+			if err != nil {
+				continue
+			}
+			kb, _ := dw.(interface {
+				KeyBytes(context.Context) ([]byte, error)
+			}).KeyBytes(ctx)
+			ws[k].want = indepHmac(kb, ws[k].info.salt, ws[k].info.info, []byte("value"))
+		}
+		var wg sync.WaitGroup
+		var bad int32
+		for k := range ws {
+			wg.Add(1)
+			go func(k int) {
+				defer wg.Done()
+				for i := 0; i < 150 && atomic.LoadInt32(&bad) == 0; i++ {
+					var payload interface{} = &hmacOnly{V: "value"}
+					if ws[k].info != nil {
+						payload = &ewiFlat{Info: ws[k].info, S1: "value"}
+					}
+					got, err := f.Process(ctx, &eventlogger.Event{Type: "t", Payload: payload, Formatted: map[string][]byte{}})
+					if err != nil || got == nil {
+						h.oracle("C16 Process failed for an event with its own key material: %v", err)
+						atomic.StoreInt32(&bad, 1)
+						return
+					}
+					v := ""
+					switch pl := got.Payload.(type) {
+					case *hmacOnly:
+						v = pl.V
+					case *ewiFlat:
+						v = pl.S1
+					}
+					if v != ws[k].want && ws[k].want != "" {
+						atomic.StoreInt32(&bad, 1)
+						whose := "nobody's"
+						for j := range ws {
+							if ws[j].want == v {
+								whose = fmt.Sprintf("sender %d's", j)
+							}
+						}
+						h.oracle("C16 %d senders through one filter, each event with its own id / salt / info: a value of sender %d was HMAC-ed under %s key material, not under the event's own", nW, k, whose)
+						return
+					}
+				}
+			}(k)
+		}
+		wg.Wait()
+		h.st.Cases++
+		h.st.Ops += nW * 150
+	}
 	h.st.hit("encrot:rounds")
 }
 
@@ -767,7 +872,7 @@ func (n *hookNode) Type() eventlogger.NodeType {
 func raceTypeHook(h *raceH, p *prng, rounds int) {
 	ctx := context.Background()
 	for r := 0; r < rounds; r++ {
-		for _, variant := range []string{"deny", "remove-node", "deny-deny"} {
+		for _, variant := range []string{"deny", "remove-node", "deny-deny", "new-type"} {
 			b, _ := eventlogger.NewBroker()
 			inV := make(chan struct{})
 			yDone := make(chan struct{})
@@ -814,6 +919,9 @@ func raceTypeHook(h *raceH, p *prng, rounds int) {
 					eventlogger.WithPipelineRegistrationPolicy(eventlogger.DenyOverwrite))
 			case "remove-node":
 				errY = b.RemoveNode(ctx, "f")
+			case "new-type":
+				// X is the first registration ever for event type "t"; so is Y
+				errY = b.RegisterPipeline(eventlogger.Pipeline{PipelineID: "p2", EventType: "t", NodeIDs: []eventlogger.NodeID{"f2", "s2"}})
 			}
 			close(yDone)
 			<-xDone
@@ -831,9 +939,25 @@ func raceTypeHook(h *raceH, p *prng, rounds int) {
 					h.oracle("C05 RegisterPipeline succeeded although an existing pipeline with that id and type forbids overwriting (registered by a call that returned while this one was validating)")
 					h.oracle("C04 two overlapping RegisterPipeline(p, DenyOverwrite) calls both succeeded: no sequential order explains it")
 				}
+			case "new-type":
+				// both registered, in whichever order: a Send of the type goes through both pipelines
+				if errX == nil && errY == nil {
+					st, _ := b.Send(ctx, "t", "x")
+					nodesV, graphsV := b.VerifDump()
+					_ = nodesV
+					n := 0
+					if g, ok := graphsV["t"]; ok {
+						n = len(g.Pipelines)
+					}
+					if n != 2 || len(st.Complete()) != 2 {
+						h.oracle("C01 two RegisterPipeline calls for an event type the Broker had not seen before overlapped (one was validating its nodes) and both returned nil, but the type now has %d registered pipelines, a Send completed %v: a registered pipeline is not traversed", n, st.Complete())
+						h.oracle("C04 two overlapping first registrations for one event type both succeeded and one pipeline is gone: no sequential order explains it")
+					}
+				}
 			case "remove-node":
 				// X then Y: the node is in use, Y is refused; Y then X: the node is gone, X is refused
 				if errX == nil && errY == nil {
+					h.oracle("C06 RemoveNode(f) succeeded (closing and unregistering f) while a RegisterPipeline listing f was validating, and that registration succeeded too: a registered pipeline lists a node that counts as unused and was closed")
 					_, listed := b.VerifDump()
 					h.oracle("C05 RegisterPipeline returned nil for a definition listing node f, and RemoveNode(f), made while the definition was being validated, returned nil too: a registered pipeline lists a node that is not registered (%d graphs)", len(listed))
 					h.oracle("C04 overlapping RegisterPipeline([f,s]) and RemoveNode(f) both succeeded: no sequential order explains it")
